@@ -53,6 +53,7 @@ def run(chk):
     chk.require('wf_boolword_false', 100)
     chk.require('wf_arglist_trailing', 100)
     chk.require('wf_arglist_glued', 20)
+    chk.require('wf_empty_long_eq_value', 20)
     chk.require('wf_arglist_eq', 100)
     chk.require('wf_abstract_novalue', 50)
     chk.require('wf_canary_checked', 5000)
